@@ -18,6 +18,14 @@ import (
 
 var idRe = regexp.MustCompile(`[gtsvr][0-9]{4}`)
 
+func lastLines(s string, n int) string {
+	l := strings.Split(strings.TrimSpace(s), "\n")
+	if len(l) > n {
+		l = l[len(l)-n:]
+	}
+	return strings.Join(l, " | ")
+}
+
 func Main(tier, replay string) {
 	run := core.NewRun("C08", tier)
 	scratch := scen.MkScratch("c08")
@@ -99,11 +107,71 @@ func Main(tier, replay string) {
 		run.AddStates(int64(len(packed)))
 		run.AddTransitions(rn.Projects.Load())
 	}
+	// ---- overwrite histories through the real CLI: the file at outputPath after any sequence of runs ----------
+	if replayID == "" {
+		var pick []scen.Case
+		seenKind := map[string]bool{}
+		for _, c := range sig.Cases {
+			if k := c.Features["kind"]; c.Features["family"] == "sig-1param" && c.Features["validate"] == "" && c.Features["alias"] == "" && c.Features["ptr"] == "false" && !seenKind[k] && len(pick) < 10 {
+				seenKind[k] = true
+				pick = append(pick, c)
+			}
+		}
+		if len(pick) < 3 {
+			core.Harness("overwrite histories: only %d scenarios picked", len(pick))
+		}
+		rnc := &scen.Runner{Scratch: scratch, BaseCfg: fam.DefaultCfg}
+		p := rnc.BuildProject(pick)
+		all, _ := p.Config["commonConfig"].(map[string]any)["controllerGlobs"].([]string)
+		mkCfg := func(globs []string, ver string) map[string]any {
+			c := scen.CloneConfig(p.Config)
+			scen.Set(c, "commonConfig.controllerGlobs", globs)
+			scen.Set(c, "openapiGeneratorConfig.openapi", ver)
+			return c
+		}
+		alphabet := []scen.OWStep{
+			{Name: "all-controllers/3.0.0", Config: mkCfg(all, "3.0.0"), Args: []string{"generate", "spec"}},
+			{Name: "all-controllers/3.1.0", Config: mkCfg(all, "3.1.0"), Args: []string{"generate", "spec"}},
+			{Name: "one-controller/3.0.0", Config: mkCfg(all[:1], "3.0.0"), Args: []string{"generate", "spec"}},
+			{Name: "one-controller/3.1.0", Config: mkCfg(all[:1], "3.1.0"), Args: []string{"generate", "spec"}},
+			{Name: "two-controllers/3.0.0/spec-and-routes", Config: mkCfg(all[:2], "3.0.0"), Args: []string{"generate", "spec-and-routes"}},
+		}
+		initials := []scen.OWInitial{{Name: "no file"}, {Name: "a longer stale file", Files: map[string]string{"dist/openapi.json": strings.Repeat("stale ", 60000)}},
+			{Name: "a shorter stale file", Files: map[string]string{"dist/openapi.json": "{}"}}}
+		depth := 2
+		if tier == "thorough" {
+			depth = 3
+		}
+		obs := scen.RunOverwriteHistories(scratch, p, alphabet, initials, depth, []string{"dist/openapi.json"})
+		for _, ob := range obs {
+			run.AddStates(1)
+			run.AddTransitions(int64(len(ob.Steps)))
+			run.AddValidated(1)
+			got, want := ob.Files["dist/openapi.json"], ob.Fresh["dist/openapi.json"]
+			last := ob.Steps[len(ob.Steps)-1]
+			feat := map[string]string{"family": "overwrite-history", "initial": ob.Initial, "last-step": last, "history-length": fmt.Sprint(len(ob.Steps))}
+			cs := map[string]any{"id": "overwrite-history", "initial": ob.Initial, "steps": ob.Steps, "exit": ob.Exit}
+			if ob.Exit[len(ob.Exit)-1] != 0 || want == "" {
+				run.Report(core.Violation{Oracle: "accepted-project-writes-its-document", Features: feat, What: fmt.Sprintf("history %v from %q: the last command exited %d (fresh-tree document empty=%v): %s", ob.Steps, ob.Initial, ob.Exit[len(ob.Exit)-1], want == "", lastLines(ob.Output, 3)), Case: cs})
+				continue
+			}
+			d, err := spec.Parse(got)
+			switch {
+			case err != nil:
+				run.Report(core.Violation{Oracle: "file-at-output-path-is-a-document", Features: feat, What: fmt.Sprintf("history %v from %q: the file at outputPath is not JSON (%v); %d bytes where a fresh tree gets %d", ob.Steps, ob.Initial, err, len(got), len(want)), Case: cs})
+			case got != want:
+				run.Report(core.Violation{Oracle: "file-at-output-path-is-what-this-run-generates", Features: feat, What: fmt.Sprintf("history %v from %q: the file at outputPath (%d bytes) differs from what the same command writes into an empty tree (%d bytes)", ob.Steps, ob.Initial, len(got), len(want)), Case: cs})
+			}
+			_ = d // byte-equal to the fresh-tree document, whose validity the family pass above judges
+			run.Outcome("overwrite-history: "+ob.Initial+" -> document as a fresh run writes it="+fmt.Sprint(got == want), 1)
+		}
+		run.Set("overwrite_histories", len(obs))
+	}
 	run.Set("documents_validated", docsChecked)
 	run.Set("findings_total", findings)
 	run.Sample(map[string]any{"family": "signature", "case": sig.Cases[0]})
 	run.Sample(map[string]any{"family": "types", "case": typ.Cases[0]})
-	run.Bound = fmt.Sprintf("every document (3.0.0 and 3.1.0) emitted for the signature (%d), type (%d), layout (%d), security (%d) and generic-instantiation (%d) scenario families, packed and alone", len(sig.Cases), len(typ.Cases), len(lay.Cases), len(sec.Cases), len(gen.Cases))
+	run.Bound = fmt.Sprintf("every document (3.0.0 and 3.1.0) emitted for the signature (%d), type (%d), layout (%d), security (%d) and generic-instantiation (%d) scenario families, packed and alone; through the real CLI every history of <= %d commands over 5 (controller set, version, command) letters from 3 initial states of the output file", len(sig.Cases), len(typ.Cases), len(lay.Cases), len(sec.Cases), len(gen.Cases), map[string]int{"quick": 2, "thorough": 3}[tier])
 	run.Rule = "state = one generated project; transition = one run of the real pipeline + spec generators; validated = documents checked by the independent structural validator ($ref closure, path-template/path-parameter bijection, unique parameters, response descriptions, enum value types, JSON-schema types, info/servers/securitySchemes as configured)"
 	run.Assumptions = []string{"documents of projects with error diagnostics are not judged (the command writes nothing for them; C10 checks that)"}
 	os.RemoveAll(scratch)
